@@ -88,6 +88,10 @@ def run_c12(job):
     warnings.filterwarnings("ignore")
     jmax = dict(job, minmax="max", trace=False)
     jmin = dict(job, minmax="min", objective="-" + job["objective"], trace=False)
+    if job.get("reuse"):
+        # the maximising instance has already solved a task of the OPPOSITE direction (same space and seed); the minimising one is fresh
+        # (warming up both symmetrically would cancel a direction-caching defect)
+        jmax["warmup"] = {"minmax": "min", "objective": job["objective"]}
     return {"job": job, "max": digest(trace.run_traced(jmax)), "min": digest(trace.run_traced(jmin))}
 
 
@@ -136,4 +140,14 @@ def run_c18(job):
             return out
         out["via_set"] = digest(trace.run_traced(dict(job, trace=False), opt=empty))
         out["via_ctor"] = digest(trace.run_traced(dict(job, trace=False), opt=cls(built)))
+        # re-configuration of an instance that has ALREADY RUN under another configuration (HyperTuner's use of one instance per grid)
+        other = dict(optimizers.CFGS[name][1])
+        other.update({"max_cycles": 3, "fitness_error": None, "population_size": int(other["population_size"] * 1.5)})
+        try:
+            used = cls(cfgcls(**other))
+            trace.run_traced(dict(job, trace=False, seed=(job.get("seed") or 0) + 1), opt=used)
+            used.set_config_parameters(d)
+            out["via_reconfigure"] = digest(trace.run_traced(dict(job, trace=False), opt=used))
+        except Exception as e:  # noqa — the other configuration was not accepted: nothing to compare
+            out["via_reconfigure"] = out["via_ctor"]
     return out
